@@ -46,7 +46,10 @@ def gen_tables(rnd):
     rules = {}
     for _ in range(rnd.randint(0, 3)):
         rules[rnd.choice(RULES)] = gen_rule(rnd)
-    return {"modules": "class", "services": svcs, "rules": rules, "timeout": 0, "logs": []}
+    cfg = {"modules": "class", "services": svcs, "rules": rules, "timeout": 0, "logs": []}
+    if rnd.random() < 0.2:
+        cfg["keycase"] = rnd.randrange(1, 1 << 30)      # some setting names written Capitalised or in CAPITALS, in every file of the chain
+    return cfg
 
 
 def mutate(rnd, cfg, stats):
